@@ -30,19 +30,19 @@ PROPS = {
         "engines": [storm()],
         "rule": "each evaluation is one (instruction, bank) pair compared bit-exactly (I80F48 bits): change of bank totals vs sum of changes of all positions in the instruction, plus the closed-world global sum at every commit; about a third of the worlds also carry Kamino / Solend / Drift pass-through banks so that venue deposits / withdrawals and their closures are reconciled too; distinct = (instruction kind, closures, sign of total change, dust abandoned) tuples",
         "assumptions": COMMON_ASSUMPTIONS + ["whole-account close may abandon < 1 share per side (the program's empty threshold); position closure < 0.0001 unit (DESIGN 9 F6)"],
-        "floors": {"quick": {"ix_ok/Deposit": 500, "C02.closures/Withdraw": 20, "C02.closures/Repay": 10}},
+        "floors": {"quick": {"scen.wipeout_collateral_fully_seized": 4, "ix_ok/Deposit": 500, "C02.closures/Withdraw": 20, "C02.closures/Repay": 10}},
     },
     "C03": {
         "engines": [storm()],
         "rule": "each evaluation is one deposit/withdraw/borrow/repay (committed or simulated) whose vault token delta is compared with the exact value delta of the position at the post-accrual share values; distinct = (kind, full/partial, share-value class, decimals, transfer-fee) tuples",
         "assumptions": COMMON_ASSUMPTIONS,
-        "floors": {"quick": {"ix_ok/Deposit": 500, "C03.full_withdraw_rounding_checked": 20, "C03.full_repay_rounding_checked": 10}},
+        "floors": {"quick": {"scen.sunset_owner_repay_all_simulated": 20, "ix_ok/Deposit": 500, "C03.full_withdraw_rounding_checked": 20, "C03.full_repay_rounding_checked": 10}},
     },
     "C06": {
         "engines": [storm()],
         "rule": "each evaluation is one bank touched by an instruction that must accrue first; post share values are compared with an exact reference accrual from the pre-state (curve, fees, utilisation, dt); informative = dt>0 and non-zero utilisation; distinct = (kind, dt class, utilisation decile)",
         "assumptions": COMMON_ASSUMPTIONS + ["a deposit that deposits nothing (amount 0 / no remaining capacity) transacts nothing and is not required to accrue"],
-        "floors": {"quick": {"C06.informative_accruals/AccrueInterest": 30, "C06.informative_accruals/Deposit": 30, "C06.informative_accruals/Withdraw": 10, "C06.informative_accruals/Borrow": 10, "C06.informative_accruals/Repay": 10}},
+        "floors": {"quick": {"C06.informative_accruals_at_zero_base_rate": 50, "C06.informative_accruals/AccrueInterest": 30, "C06.informative_accruals/Deposit": 30, "C06.informative_accruals/Withdraw": 10, "C06.informative_accruals/Borrow": 10, "C06.informative_accruals/Repay": 10}},
     },
     "C16": {
         "engines": [storm(sq=12, st=12), storm("venue", arg="C16:venue", sq=4, st=4)],
@@ -115,7 +115,7 @@ PROPS = {
         "engines": [storm("matrix")],
         "rule": "even shards: matrix over twin groups - every listed instruction x every signer identity (authority, stranger, 7 group roles, fee admin, other group's admin, no signature) x every single substitution of a bound account (foreign group twin, sibling bank's vault/authority, clone owned by another program, wrong sysvar / token program, for pass-through banks the venue reserve / obligation / program and the reserve or price account that values the collateral in the risk accounts), plus coherent substitutions (a foreign group's bank presented with all of its own vaults and oracle accounts); a cell counts only when its positive control succeeded; odd shards: attribution monitor over the administrative storm (every change of an account's balances / every role-signed instruction must be attributable to an entitled signer); distinct = (cell kind, instruction, identity or substitution, outcome)",
         "assumptions": COMMON_ASSUMPTIONS + ["the table of entitled signers and bound slots is written from the statement and the instruction doc comments (DESIGN App. A)"],
-        "floors": {"quick": {"C08.matrix_controls_ok": 300, "C08.matrix_signer_cells": 3000, "C08.matrix_substitution_cells": 1000, "admin.role_rotations": 20, "fidelity.group_configure_requests_compared": 100}},
+        "floors": {"quick": {"C08.empty_bracket_committed": 50, "C08.matrix_foreign_group_with_its_role_holder_cells": 1000, "C08.matrix_controls_ok": 300, "C08.matrix_signer_cells": 3000, "C08.matrix_substitution_cells": 1000, "admin.role_rotations": 20, "fidelity.group_configure_requests_compared": 100}},
         "exhaustive_note": "exhaustive over the listed cases x identities x substitutions per world",
     },
     "C12": {
